@@ -121,12 +121,12 @@ Qed.
 Lemma elem_gt_rounded f q : 1 <= nw f <= 52 -> elem_gt (NF (Fin q 0)) (cmax f) = (cmax f <? q).
 Proof.
   intros Hw. pose proof (cmax_bound f Hw). assert (2^52 < 2^53) by (apply pow2_lt; lia).
-  unfold elem_gt. rewrite f64_of_Z_exact by lia. apply f64_ltb_int.
+  unfold elem_gt. apply f64_ltb_int.
 Qed.
 Lemma elem_lt_rounded f q : 1 <= nw f <= 52 -> elem_lt (NF (Fin q 0)) (cmin f) = (q <? cmin f).
 Proof.
   intros Hw. pose proof (cmax_bound f Hw). assert (2^52 < 2^53) by (apply pow2_lt; lia).
-  unfold elem_lt. rewrite f64_of_Z_exact by lia. apply f64_ltb_int.
+  unfold elem_lt. apply f64_ltb_int.
 Qed.
 
 Lemma astype_int q : - 2^63 < q < 2^63 -> astype_i64 (Fin q 0) = Some q.
